@@ -672,7 +672,12 @@ func c15SiteKey(site string) string {
 }
 
 func c15InProcess(r *vlib.Run, rng *vlib.Rng, dir string, i int, raceSet *[]*parser.Thrift) {
-	p := idl.Generate(rng.Fork("p"), c15Opts(rng, false))
+	o := c15Opts(rng, false)
+	o.RootRelativeIncludes = i%3 == 2 // includes found through the search path (-i <root>)
+	if o.RootRelativeIncludes && o.Files < 3 {
+		o.Files = 3
+	}
+	p := idl.Generate(rng.Fork("p"), o)
 	sub := filepath.Join(dir, fmt.Sprintf("p%d", i))
 	lay := idl.PlainLayout()
 	if i%3 == 1 {
@@ -683,10 +688,13 @@ func c15InProcess(r *vlib.Run, rng *vlib.Rng, dir string, i int, raceSet *[]*par
 		vlib.Fatal("C15", "write: %v", err)
 	}
 	defer os.RemoveAll(sub)
-	root, stage, err := harness.Frontend(filepath.Join(sub, "main.thrift"))
+	root, stage, err := harness.FrontendInc(filepath.Join(sub, "main.thrift"), []string{sub})
 	if err != nil {
 		r.Inconclusive(fmt.Sprintf("front end rejects a generated program (%s): %v", stage, err))
 		return
+	}
+	if o.RootRelativeIncludes {
+		r.Sig("in-process:includes-through-search-path")
 	}
 	asts, err := harness.MapASTs(p, root)
 	if err != nil {
